@@ -390,6 +390,11 @@ class Module(nn.Module):
                 if key in state_dict:
                     param.data = state_dict[key].data.clone()  # never share storage with the dict (or the model it came from)
 
+    def _apply(self, fn, *args, **kwargs):
+        # A dtype / device conversion invalidates any precomputed (test-time) caches, which hold tensors of the old dtype / device
+        self._clear_cache()
+        return super()._apply(fn, *args, **kwargs)
+
     def _load_from_state_dict(
         self, state_dict, prefix, local_metadata, strict, missing_keys, unexpected_keys, error_msgs
     ):
